@@ -8,6 +8,7 @@
 package c11sync
 
 import (
+	"fmt"
 	"unsafe"
 
 	"verif/harness/shim/tsched"
@@ -67,5 +68,18 @@ type Mutex struct{ rw RWMutex }
 func (m *Mutex) Lock()   { m.rw.Lock() }
 func (m *Mutex) Unlock() { m.rw.Unlock() }
 
+// Panics collects the panics of spawned threads (a panic in the instrumented code must not kill the run:
+// the driver reports it as a monitor hit).
+var Panics []string
+
 // Spawn stands for a `go` statement executed by the running managed thread.
-func Spawn(f func()) { tsched.S.Go("spawned", f) }
+func Spawn(f func()) {
+	tsched.S.Go("spawned", func() {
+		defer func() {
+			if r := recover(); r != nil {
+				Panics = append(Panics, fmt.Sprint(r))
+			}
+		}()
+		f()
+	})
+}
